@@ -12,6 +12,7 @@ from geometer.base import EQ_TOL_ABS, EQ_TOL_REL, Tensor, TensorCollection
 from geometer.exceptions import IncompatibleShapeError, LinearDependenceError, NotCoplanar
 from geometer.operators import angle, dist, harmonic_set
 from geometer.point import (
+    LineCollection,
     LineTensor,
     Plane,
     PlaneTensor,
@@ -291,7 +292,17 @@ class SegmentTensor(PolytopeTensor):
                 return SegmentCollection(a, copy=False).intersect(SegmentCollection(b, copy=False))
             ind = ~result.is_zero() & self.contains(result) & other.contains(result)
         else:
-            result = meet(self._line, other, _check_dependence=False)
+            try:
+                result = meet(self._line, other, _check_dependence=False)
+            except NotCoplanar:
+                # a line that is skew to the supporting line has no common point with the segment
+                coplanar = self._line.is_coplanar(other)
+                if not np.any(coplanar):
+                    return []
+                # collections: intersect the pairs with coplanar lines only
+                a = np.broadcast_to(self.array, coplanar.shape + self.array.shape[-2:])[coplanar]
+                b = np.broadcast_to(other.array, coplanar.shape + other.array.shape[-2:])[coplanar]
+                return SegmentCollection(a, copy=False).intersect(LineCollection(b, copy=False))
             ind = ~result.is_zero() & self.contains(result)
 
         if result.free_indices > 0:
